@@ -28,11 +28,17 @@ def _exec_part(args):
     for weakly in (False, True):
         for variant in ("objects", "keys"):
             try:
-                bb = impl.build_base(sig, conds, via=case["via"]) if conds else _empty_base(sig)
+                # API-built bases are stored under a content-determined key layout (0-based, shifted, gaps, descending, ...);
+                # the recorded partition speaks about positions, so keys are mapped back (an unknown key becomes -key-1000)
+                keys = infer.key_layout(case) if conds else None
+                bb = impl.build_base(sig, conds, via=case["via"], keys=keys) if conds else _empty_base(sig)
                 if variant == "objects":
                     p = _part_to_keys(impl.with_limit(120, consistency, bb, "z3", weakly)[0], bb)
                 else:
                     p = impl.with_limit(120, consistency_indices, bb, "z3", weakly)[0]
+                if keys and p not in (False, None):
+                    kpos = {k: i + 1 for i, k in enumerate(keys)}
+                    p = [[kpos.get(k, -1000 - k if isinstance(k, int) else -1) for k in layer] for layer in p]
                 exc = None
             except BaseException as e:
                 if isinstance(e, (KeyboardInterrupt, SystemExit)):
@@ -50,7 +56,7 @@ def _exec_part(args):
                     if not uses and facts:
                         continue
                     try:
-                        bb = impl.build_base(sig, conds, via="api") if conds else _empty_base(sig)
+                        bb = impl.build_base(sig, conds, via="api", keys=infer.key_layout(dict(case, via="api"))) if conds else _empty_base(sig)
                         ftexts = [(M.render(f) if i % 2 else M.to_pysmt(f)) for i, f in enumerate(facts)]
                         d = impl.with_limit(
                             120, consistency_diagnostics, bb, extended=extended, uses_facts=uses, facts=ftexts or None, on_inconsistent="silent"
